@@ -12,11 +12,11 @@ namespace MayVerif.Cancel
   | .susp _ => false | .fin => false | .idle => true | .ck => true | .y0 _ => true | .yb _ _ => true | .ycl _ => true
 /-- the tail still owns the coroutine (it has not published it yet) -/
 @[grind] def isK0 : KPc → Bool
-  | .k0 _ => true | .kf0 _ => true | .kf3 _ => true
+  | .k0 _ => true | .kf0 _ => true | .kf3 _ => true | .kd0 _ => true | .kd1c _ => true | .kd3 _ => true | .kd3c _ => true
   | .off => false | .k1 _ => false | .k3 _ => false | .k4 _ => false | .kc _ _ => false | .kt _ => false
 /-- program points that exist only in the register-before-publish order -/
 @[grind] def isFx : KPc → Bool
-  | .kf0 _ => true | .kf3 _ => true | .kt _ => true
+  | .kf0 _ => true | .kf3 _ => true | .kt _ => true | .kd0 _ => true | .kd1c _ => true | .kd3 _ => true | .kd3c _ => true
   | .off => false | .k0 _ => false | .k1 _ => false | .k3 _ => false | .k4 _ => false | .kc _ _ => false
 
 structure InvA (s : St) : Prop where
@@ -39,7 +39,7 @@ structure InvA (s : St) : Prop where
   l4c : ∀ (n : Nat), n + 1 = s.sh.yields → s.sh.loc = .withK → isK0 (s.kpc n) = true
   l5 : s.sh.resumes + (if pRuns s.ppc then 0 else 1) = s.sh.yields + (if s.ppc = .fin then 1 else 0)
 
-theorem invA_init (ov : Bool) (p0 : Para) (ns : Nat) (fx : Bool) : InvA (init ov p0 ns fx) := by
+theorem invA_init (ov : Bool) (p0 : Para) (ns : Nat) (fx dz : Bool) : InvA (init ov p0 ns fx dz) := by
   constructor <;> simp [init, pRuns, isK0, isFx]
 
 /-! ### no lost cancellation when kernel tails do not overlap (`ov = false`) -/
@@ -47,15 +47,17 @@ theorem invA_init (ov : Bool) (p0 : Para) (ns : Nat) (fx : Bool) : InvA (init ov
 /-- the tail (own slot `s`) has not yet registered its slot with `set_co` -/
 @[grind] def kPre (s : Sid) : KPc → Bool
   | .k1 a => a == s | .k3 a => a == s | .off => false | .k0 _ => false | .k4 _ => false | .kc _ _ => false
-  | .kf0 _ => false | .kf3 _ => false | .kt _ => false
+  | .kf0 _ => false | .kf3 _ => false | .kt _ => false | .kd0 _ => false | .kd1c _ => false | .kd3 _ => false | .kd3c _ => false
 /-- the tail will still deal with a cancellation of the coroutine waiting in slot `s` -/
 @[grind] def kPend (s : Sid) : KPc → Bool
   | .k1 a | .k3 a | .k4 a => a == s
   | .kc a .c0 | .kc a .c1 | .kc a .c2 => a == s
   | .kc a (.c3 b) => a == s && b == s
   | .off => false | .k0 _ => false | .kf0 _ => false | .kf3 _ => false | .kt _ => false
+  | .kd0 _ => false | .kd1c _ => false | .kd3 _ => false | .kd3c _ => false
 @[grind] def kSlot : KPc → Option Sid
-  | .k0 a | .k1 a | .k3 a | .k4 a | .kc a _ | .kf0 a | .kf3 a | .kt a => some a | .off => none
+  | .k0 a | .k1 a | .k3 a | .k4 a | .kc a _ | .kf0 a | .kf3 a | .kt a | .kd0 a | .kd1c a | .kd3 a | .kd3c a => some a
+  | .off => none
 /-- an event actor inside `cancel()` after its `fetch_or`, before its `co.take` -/
 @[grind] def eMid : EPc → Bool
   | .c .c1 => true | .c .c2 => true | .c .c0 => false | .c (.c3 _) => false | .idle => false
@@ -86,7 +88,7 @@ theorem kPend_slot (s : Sid) (pc : KPc) (h : kPend s pc = true) : kSlot pc = som
 theorem kSlot_ne_off (pc : KPc) (a : Sid) (h : kSlot pc = some a) : pc ≠ .off := by
   cases pc <;> simp_all [kSlot]
 
-theorem invB_init (p0 : Para) (ns : Nat) : InvB (init false p0 ns false) := by
+theorem invB_init (p0 : Para) (ns : Nat) (dz : Bool) : InvB (init false p0 ns false dz) := by
   constructor <;> simp [init, kSlot]
 
 /-! ### no lost cancellation in the register-before-publish order (`fx = true`), overlapping kernel tails included -/
@@ -95,6 +97,7 @@ theorem invB_init (p0 : Para) (ns : Nat) : InvB (init false p0 ns false) := by
 @[grind] def kFpre (s : Sid) : KPc → Bool
   | .k1 a => a == s | .k4 a => a == s | .kt a => a == s
   | .off => false | .k0 _ => false | .k3 _ => false | .kc _ _ => false | .kf0 _ => false | .kf3 _ => false
+  | .kd0 _ => false | .kd1c _ => false | .kd3 _ => false | .kd3c _ => false
 
 structure InvF (s : St) : Prop where
   fx : s.sh.fx = true
@@ -107,8 +110,28 @@ structure InvF (s : St) : Prop where
         s.sh.cco = some a ∨ s.epc s.sh.wtk = .c (.c3 a) ∨ (kFpre a (s.kpc n) = true ∧ s.sh.cst = 1)
   f5 : ∀ (n : Nat) (a : Sid), n + 1 = s.sh.yields → s.sh.cst = 1 → s.sh.loc = .slot a →
         kFpre a (s.kpc n) = true ∨ (s.sh.cco = some a ∧ eMid (s.epc s.sh.wfo) = true) ∨ s.epc s.sh.wtk = .c (.c3 a)
+  g1 : ∀ (n : Nat) (a : Sid), (s.kpc n = .kd1c a ∨ s.kpc n = .kd3c a) → 2 ≤ s.sh.cst
 
-theorem invF_init (ov : Bool) (p0 : Para) (ns : Nat) : InvF (init ov p0 ns true) := by
+theorem invF_init (ov : Bool) (p0 : Para) (ns : Nat) (dz : Bool) : InvF (init ov p0 ns true dz) := by
+  constructor <;> simp [init, kSlot]
+
+/-! ### a wait entered with cancellation disabled is not interrupted (`fx` and `dz`, F16) -/
+
+structure InvD (s : St) : Prop where
+  fx : s.sh.fx = true
+  dz : s.sh.dz = true
+  u1 : ∀ (a : Sid), s.sh.used a = false → s.sh.cco ≠ some a
+  u2 : ∀ (t : Tid) (a : Sid), s.epc t = .c (.c3 a) → s.sh.used a = true
+  u3 : ∀ (n : Nat) (a : Sid), kSlot (s.kpc n) = some a → s.sh.used a = true
+  p1 : ∀ (a : Sid), s.sh.pw = some a → 2 ≤ s.sh.cst
+  p2 : ∀ (a : Sid), s.sh.pw = some a → s.sh.cco ≠ some a
+  p3 : ∀ (t : Tid) (a : Sid), s.sh.pw = some a → s.epc t ≠ .c (.c3 a)
+  p4 : ∀ (n : Nat) (a : Sid), s.sh.pw = some a → kSlot (s.kpc n) = some a → n + 1 = s.sh.yields
+  p5 : ∀ (n : Nat) (a : Sid), s.sh.pw = some a → s.kpc n ≠ .kt a ∧ s.kpc n ≠ .kf0 a ∧ s.kpc n ≠ .kf3 a
+  p6 : ∀ (a : Sid), s.sh.pw = some a → pRuns s.ppc = false
+  bad : s.sh.badIntr = false
+
+theorem invD_init (ov : Bool) (p0 : Para) (ns : Nat) : InvD (init ov p0 ns true true) := by
   constructor <;> simp [init, kSlot]
 
 theorem kFpre_slot (s : Sid) (pc : KPc) (h : kFpre s pc = true) : kSlot pc = some s := by
